@@ -281,6 +281,18 @@ impl<'de> SerdeDeserializer<'de> for &mut Deserializer<'de> {
                 }
                 Err(Error::InvalidValue("expected single char".into()))
             }
+            // a char is written as a string, which travels as a binary of its UTF-8 bytes
+            OwnedTerm::Binary(bytes) => {
+                let mut chars = str::from_utf8(bytes)
+                    .map_err(|_| Error::InvalidValue("expected single char".into()))?
+                    .chars();
+                if let Some(c) = chars.next()
+                    && chars.next().is_none()
+                {
+                    return visitor.visit_char(c);
+                }
+                Err(Error::InvalidValue("expected single char".into()))
+            }
             _ => Err(Error::TypeMismatch {
                 expected: "string".into(),
                 found: format!("{:?}", self.term),
